@@ -44,6 +44,14 @@ CHECKS = {
             'random C01-class programs on tracer inputs.',
             'Frames are attributed by file name; exempt contexts are those the documentation lists plus assert and `in` tests (not overloadable).',
             'DESIGN.md 3/C04'),
+    'C09': ('exploration',
+            'interface differential against the original function object and CPython argument binding',
+            'Random signatures over all five parameter kinds and closure shapes, as functions, lambdas, methods, loop-made and '
+            'decorated functions: signature, identity of defaults and kw-defaults, identity of __globals__, identity of closure '
+            'cells by name, rebinding visible both ways, no side effects during conversion, and 14 well/ill-formed call bindings '
+            'per function compared for result or exception class. Equal-code twins and second closure instances converted back to back.',
+            'inspect.signature and CPython call binding of the original are the reference.',
+            'DESIGN.md 3/C09'),
     'C11': ('exploration',
             'differential execution with adversarial identifiers + recorder on the real Namer.new_symbol',
             'Programs whose identifiers are the converter vocabulary in every role (random stream + 10 role templates x 45 names) '
